@@ -240,3 +240,146 @@ Proof.
 Qed.
 Lemma land_ones16_Z n : Z.of_N (N.land n 65535) = wrap 16 (Z.of_N n).
 Proof. change 65535%N with (N.ones 16). rewrite N.land_ones, N2Z.inj_mod. reflexivity. Qed.
+
+(* ------------------------------------------------------------------ the model's binary search, one round at a time *)
+Ltac Zify.zify_post_hook ::= Z.div_mod_to_equations.
+
+Lemma skipN_0 (v : list N) : skipN v 0 = v.
+Proof. destruct v; reflexivity. Qed.
+
+(* the cursor form of the model (w = v[low:]) read through v itself *)
+Lemma search_loop_step v x f low high : (low <= high)%N -> (high <= lenN v)%N ->
+  search_loop (S f) (skipN v low) x low high =
+  if (low <? high)%N then
+    let mid := N.shiftr (low + high) 1 in
+    if (nthN v mid <? x)%N then search_loop f (skipN v (mid + 1)) x (mid + 1) high else search_loop f (skipN v low) x low mid
+  else low.
+Proof.
+  intros H1 H2. cbn [search_loop]. destruct (N.ltb_spec low high) as [Hlt|Hge]; [|reflexivity]. cbv zeta.
+  assert (Hm : (low <= N.shiftr (low + high) 1 < high)%N).
+  { rewrite N.shiftr_div_pow2. change (2 ^ 1)%N with 2%N. lia. }
+  set (mid := N.shiftr (low + high) 1) in *.
+  assert (E : skipN (skipN v low) (mid - low) = skipn (N.to_nat mid) v).
+  { rewrite !skipN_skipn, skipn_skipn. f_equal. lia. }
+  rewrite E, hd_skipn, tl_skipn, nthN_nth, !skipN_skipn. replace (N.to_nat (mid + 1)) with (S (N.to_nat mid)) by lia. reflexivity.
+Qed.
+
+(* enough fuel: the result does not depend on it *)
+Lemma search_loop_fuel x : forall f1 f2 w low high, (N.to_nat (high - low) < f1)%nat -> (N.to_nat (high - low) < f2)%nat ->
+  search_loop f1 w x low high = search_loop f2 w x low high.
+Proof.
+  induction f1 as [|f1 IH]; intros f2 w low high H1 H2; [lia|]. destruct f2 as [|f2]; [lia|]. cbn [search_loop].
+  destruct (N.ltb_spec low high) as [Hlt|Hge]; [|reflexivity]. cbv zeta.
+  assert (Hm : (low <= N.shiftr (low + high) 1 < high)%N).
+  { rewrite N.shiftr_div_pow2. change (2 ^ 1)%N with 2%N. lia. }
+  destruct (hd 0%N (skipN w (N.shiftr (low + high) 1 - low)) <? x)%N; apply IH; lia.
+Qed.
+
+(* the search result is a position *)
+Lemma search_loop_le x : forall f w low high, (low <= high)%N -> (low <= search_loop f w x low high <= high)%N.
+Proof.
+  induction f as [|f IH]; intros w low high H; cbn [search_loop]; [lia|].
+  destruct (N.ltb_spec low high) as [Hlt|Hge]; [|lia]. cbv zeta.
+  assert (Hm : (low <= N.shiftr (low + high) 1 < high)%N).
+  { rewrite N.shiftr_div_pow2. change (2 ^ 1)%N with 2%N. lia. }
+  destruct (hd 0%N (skipN w (N.shiftr (low + high) 1 - low)) <? x)%N.
+  - specialize (IH (tl (skipN w (N.shiftr (low + high) 1 - low))) (N.shiftr (low + high) 1 + 1)%N high ltac:(lia)). lia.
+  - specialize (IH w low (N.shiftr (low + high) 1) ltac:(lia)). lia.
+Qed.
+Lemma search_le v x : (search v (lenN v) x <= lenN v)%N.
+Proof. unfold search. pose proof (search_loop_le x (S (length v)) v 0%N (lenN v) ltac:(lia)). lia. Qed.
+
+(* int(uint(low+high) >> 1) on the N side *)
+Lemma mid_Z low high : (low + high < 2 ^ 64)%N ->
+  Z.shiftr (wrap 64 (Z.of_N low + Z.of_N high)) 1 = Z.of_N (N.shiftr (low + high) 1).
+Proof.
+  intros H. rewrite <- N2Z.inj_add, wrap_small by (change (2 ^ 64) with (Z.of_N (2 ^ 64)); lia).
+  change 1 with (Z.of_N 1). rewrite <- of_N_shiftr. reflexivity.
+Qed.
+
+(* the loop of search, for any packing pk of its two state variables, given what one iteration does *)
+Lemma search_while {St R} (pk : N -> N -> St) (c : St -> M bool) (b : St -> M (ctl St R)) (p : St -> M St) (v : list N) (x : N) :
+  (forall low high, (low <= high)%N -> (high <= lenN v)%N ->
+     iter1 c b p (pk low high) =
+     Ret (if (low <? high)%N then
+            let mid := N.shiftr (low + high) 1 in if (nthN v mid <? x)%N then inl (pk (mid + 1)%N high) else inl (pk low mid)
+          else inr (inl (pk low high)))) ->
+  forall f low high, (low <= high)%N -> (high <= lenN v)%N -> (N.to_nat (high - low) < f)%nat ->
+  while f c b p (pk low high) =
+  Ret (inl (pk (search_loop f (skipN v low) x low high) (search_loop f (skipN v low) x low high))).
+Proof.
+  intros H1. induction f as [|f IH]; intros low high Hl Hh Hf; [lia|].
+  rewrite while_iter, H1, search_loop_step by assumption.
+  destruct (N.ltb_spec low high) as [Hlt|Hge]; cbv zeta.
+  - assert (Hm : (low <= N.shiftr (low + high) 1 < high)%N).
+    { rewrite N.shiftr_div_pow2. change (2 ^ 1)%N with 2%N. lia. }
+    destruct (nthN v (N.shiftr (low + high) 1) <? x)%N; cbn [bind]; apply IH; lia.
+  - cbn [bind]. assert (low = high) by lia. subst. reflexivity.
+Qed.
+
+(* ------------------------------------------------------------------ more slices of converted lists *)
+Lemma zlen_zl_N v : zlen (zl v) = Z.of_N (lenN v).
+Proof. rewrite zlen_zl, lenN_length. lia. Qed.
+(* s[:b] *)
+Lemma m_slice_zl_to v b : m_slice (zl v) 0 b =
+  if (0 <=? b) && (b <=? Z.of_N (lenN v)) then Ret (zl (firstn (Z.to_nat b) v)) else Panic.
+Proof.
+  rewrite m_slice_zl, lenN_length. change (0 <=? 0) with true. cbn [andb]. change (Z.to_nat 0) with 0%nat. cbn [skipn].
+  rewrite Nat.sub_0_r. replace (Z.of_N (N.of_nat (length v))) with (Z.of_nat (length v)) by lia. reflexivity.
+Qed.
+(* s[a:] *)
+Lemma m_slice_zl_from v a : m_slice (zl v) a (Z.of_N (lenN v)) =
+  if (0 <=? a) && (a <=? Z.of_N (lenN v)) then Ret (zl (skipn (Z.to_nat a) v)) else Panic.
+Proof.
+  rewrite m_slice_zl, lenN_length. replace (Z.of_N (N.of_nat (length v))) with (Z.of_nat (length v)) by lia.
+  rewrite Z.leb_refl, andb_true_r. destruct ((0 <=? a) && (a <=? Z.of_nat (length v))) eqn:E; [|reflexivity].
+  rewrite firstn_all2; [reflexivity|]. rewrite skipn_length. lia.
+Qed.
+
+(* ------------------------------------------------------------------ a loop that clears words [step] at a time *)
+Lemma m_set_zl0 v z : m_set (zl v) z 0 =
+  if (0 <=? z) && (z <? Z.of_nat (length v)) then Ret (zl (Bits.upd v (Z.to_nat z) 0%N)) else Panic.
+Proof. exact (m_set_zl v z 0%N). Qed.
+
+(* words [a, b) cleared, the others kept *)
+Definition cleared (a b : nat) (ws ws' : list N) : Prop :=
+  length ws' = length ws /\ forall j, nth j ws' 0%N = if (a <=? j)%nat && (j <? b)%nat then 0%N else nth j ws 0%N.
+
+Lemma cleared_all ws ws' : cleared 0 (length ws) ws ws' -> ws' = repeat 0%N (length ws).
+Proof.
+  intros [L H]. apply (nth_ext _ _ 0%N 0%N); [rewrite repeat_length; exact L|].
+  intros j Hj. rewrite H. rewrite L in Hj. cbn [Nat.leb andb].
+  destruct (Nat.ltb_spec j (length ws)); [|lia]. symmetry. apply nth_repeat.
+Qed.
+
+Lemma zero_while {St R} (pk : list N -> nat -> St) (c : St -> M bool) (b : St -> M (ctl St R)) (p : St -> M St) (rounds step : nat) : (0 < step)%nat ->
+  (forall ws i, (i < rounds * step)%nat -> (i + step <= length ws)%nat ->
+     exists ws', iter1 c b p (pk ws i) = Ret (inl (pk ws' (i + step)%nat)) /\ cleared i (i + step) ws ws') ->
+  (forall ws i, (rounds * step <= i)%nat -> iter1 c b p (pk ws i) = Ret (inr (inl (pk ws i)))) ->
+  forall n k f ws, (k + n = rounds)%nat -> (rounds * step <= length ws)%nat -> (n < f)%nat ->
+  exists ws', while f c b p (pk ws (k * step)%nat) = Ret (inl (pk ws' (rounds * step)%nat)) /\ cleared (k * step) (rounds * step) ws ws'.
+Proof.
+  intros Hstep Hgo Hend. induction n as [|n IH]; intros k f ws Hk Hlen Hf; (destruct f as [|f]; [lia|]); rewrite while_iter.
+  - replace k with rounds by lia. rewrite Hend by lia. cbn [bind]. exists ws. split; [reflexivity|]. split; [reflexivity|].
+    intros j. destruct (Nat.leb_spec (rounds * step) j), (Nat.ltb_spec j (rounds * step)); cbn [andb]; try lia; reflexivity.
+  - assert (S k * step <= rounds * step)%nat by (apply Nat.mul_le_mono_r; lia).
+    destruct (Hgo ws (k * step)%nat) as (ws1 & E1 & L1 & C1); [lia|lia|].
+    rewrite E1. cbn [bind]. replace (k * step + step)%nat with (S k * step)%nat in * by lia.
+    destruct (IH (S k) f ws1 ltac:(lia) ltac:(lia) ltac:(lia)) as (ws2 & E2 & L2 & C2).
+    exists ws2. split; [exact E2|]. split; [lia|]. intros j. rewrite C2, C1.
+    destruct (Nat.leb_spec (S k * step) j), (Nat.ltb_spec j (rounds * step)), (Nat.leb_spec (k * step) j), (Nat.ltb_spec j (S k * step));
+      cbn [andb]; try lia; reflexivity.
+Qed.
+
+Lemma cleared_refl a ws : cleared a a ws ws.
+Proof. split; [reflexivity|]. intros j. destruct (Nat.leb_spec a j), (Nat.ltb_spec j a); cbn [andb]; try lia; reflexivity. Qed.
+(* one more word cleared by  set[z] = 0 *)
+Lemma clear_one ws a k cur z : cleared a k ws cur -> z = Z.of_nat k -> (a <= k < length ws)%nat ->
+  exists cur', m_set (zl cur) z 0 = Ret (zl cur') /\ cleared a (S k) ws cur'.
+Proof.
+  intros [L C] -> Hk. exists (Bits.upd cur k 0%N). rewrite m_set_zl0, Nat2Z.id.
+  destruct (Z.leb_spec 0 (Z.of_nat k)); [|lia]. destruct (Z.ltb_spec (Z.of_nat k) (Z.of_nat (length cur))); [|lia].
+  cbn [andb]. split; [reflexivity|]. split; [rewrite upd_length; exact L|].
+  intros j. rewrite nth_upd by lia. rewrite C.
+  destruct (Nat.eqb_spec j k), (Nat.leb_spec a j), (Nat.ltb_spec j k), (Nat.ltb_spec j (S k)); cbn [andb]; try lia; reflexivity.
+Qed.
